@@ -21,6 +21,9 @@ RULE = ("histories of 5-40 operations over 2 annotation registers: a[s,t]=l, a[s
 
 def _history(rng, regime):
     labels = LABELS[: rng.randrange(2, 6)]
+    if rng.random() < 0.2:
+        # homogeneous numeric labels whose natural and printed orders disagree (2 / 10, -1 / 0, 9 / 10 / 100)
+        labels = rng.sample([0, 1, 2, 3, 9, 10, 11, 20, 100, -1], rng.randrange(3, 8))
     tracks = rng.sample(TRACKS, rng.randrange(2, 6))
     if rng.random() < 0.3:
         tracks = list(labels)          # track names drawn from the label universe: a label may equal a track name
